@@ -86,7 +86,7 @@ def _returns_param(prog, fname, depth=0):
 
 
 class State:
-    __slots__ = ("env", "heap", "facts", "trail", "site", "maybe_null")
+    __slots__ = ("env", "heap", "facts", "trail", "site", "maybe_null", "held", "dang")
 
     def __init__(self):
         self.env = {}
@@ -95,6 +95,8 @@ class State:
         self.trail = ()
         self.site = {}         # obj -> allocation description
         self.maybe_null = set()
+        self.held = {}         # obj -> (holder object, "holder->field") for an object stored into a field of an object this frame owns
+        self.dang = {}         # obj -> (holder object, "holder->field"): released again after it was stored there; the field still points to it
 
     def copy(self):
         s = State()
@@ -104,11 +106,13 @@ class State:
         s.trail = self.trail
         s.site = dict(self.site)
         s.maybe_null = set(self.maybe_null)
+        s.held = dict(self.held)
+        s.dang = dict(self.dang)
         return s
 
     def key(self):
         return (tuple(sorted(self.env.items())), tuple(sorted(self.heap.items())), tuple(sorted(self.facts.items())),
-                tuple(sorted(self.maybe_null)))
+                tuple(sorted(self.maybe_null)), tuple(sorted(self.held.items())), tuple(sorted(self.dang.items())))
 
     def refs(self, obj):
         return [l for l, o in self.env.items() if o == obj]
@@ -344,8 +348,19 @@ class OwnAnalysis:
         h = st.heap.get(obj)
         if h == "F":
             self.report("double-free", node, loc, "%s(%s): %s was already released" % (callee, loc, st.site.get(obj, "the object")), st)
+        elif h == "M" and obj in st.held and st.heap.get(st.held[obj][0]) == "O" and callee == "free":
+            # stored into a field of an object this frame made and still owns, and now taken back (an error exit that releases the parts
+            # one by one and the holder last): legitimate as long as the holder does not outlive it with the field unchanged, and the
+            # holder is not released by a function that releases its fields as well - both are looked at where they would happen
+            st.dang[obj] = st.held.pop(obj)
         elif h == "M":
             self.report("free-after-move", node, loc, "%s(%s): ownership of %s was handed over before" % (callee, loc, st.site.get(obj, "the object")), st)
+        if callee in DESTRUCTORS or callee in ("econf_freeFile", "econf_freeExtValue"):
+            for o9, (h9, ft9) in list(st.dang.items()):
+                if h9 == obj:
+                    self.report("double-free", node, loc, "%s(%s) releases `%s` as well, which was already released (%s)" % (
+                        callee, loc, ft9, st.site.get(o9, "the object")), st)
+                    del st.dang[o9]
         elif h == "C" and str(obj).startswith("caller:") and str(obj)[7:] not in self.pp_params and not self.is_destructor:
             self.report("free-of-borrowed", node, loc,
                         "%s(%s): this is %s - memory the caller (or a process-wide list) still owns and will use or release again" % (
@@ -564,6 +579,10 @@ class OwnAnalysis:
                 self.ptr_locals.add(l9.j["name"])
                 st.env[l9.j["name"]] = st.env.get(src)
                 return [st]
+            lv9 = render(lhs)
+            for o9, (h9, ft9) in list(st.dang.items()):
+                if ft9 == lv9:
+                    del st.dang[o9]           # the field gets another value
             if src is not None and rhs.strip().j.get("ct", "").endswith("*"):
                 obj = st.env.get(src)
                 if obj not in (None, NULL, UNK):
@@ -571,6 +590,12 @@ class OwnAnalysis:
                         self.report("use-after-free", n, src, "`%s` is stored after %s was released" % (src, st.site.get(obj, "its object")), st)
                     elif st.heap.get(obj) == "O":
                         st.heap[obj] = "M"
+                        if l9.k == "MemberExpr" and l9.children:
+                            b9 = l9.children[0].strip()
+                            hl9 = self.loc_of(b9) if l9.j.get("arrow") else None
+                            hobj9 = st.env.get(hl9) if hl9 is not None else None
+                            if hobj9 not in (None, NULL, UNK) and st.heap.get(hobj9) == "O":
+                                st.held[obj] = (hobj9, lv9)
             return [st]
         if k == "DeclStmt":
             for d in n.j.get("decls", []):
@@ -813,6 +838,11 @@ class OwnAnalysis:
         for loc, obj in st.env.items():
             if obj not in (None, NULL, UNK) and any(loc.startswith("(*%s)" % p) or loc.startswith("%s->" % p) for p in self.pp_params + [q["name"] for q in self.fn.params]):
                 handed.add(obj)     # stored in a field of an object the caller holds
+        for o9, (h9, ft9) in st.dang.items():
+            if st.heap.get(h9) in ("O", "M", "C"):
+                self.report("dangling-out-pointer", node, ft9,
+                            "`%s` still points to %s, which was released, and the object holding it lives on: whoever gets it will free or use it again" % (
+                                ft9, st.site.get(o9, "an object")), st)
         for obj, h in st.heap.items():
             if h == "O" and obj not in handed:
                 refs = st.refs(obj)
